@@ -2,6 +2,7 @@
 accesses, allocation sites, plain accesses to designated shared fields)."""
 import json
 import os
+import re
 import subprocess
 
 ATOMIC_METHODS = {"load": "load", "store": "store", "exchange": "xchg", "compare_exchange_weak": "cas",
@@ -232,6 +233,7 @@ class Walker:
         self.objs = objs
         self.fns = []
         self.members = {}      # cls -> list of (name, type)
+        self.fn_aliases = set()   # alias names whose underlying type is a type-erased callable
         self.cur_file = ""
 
     def run(self):
@@ -239,6 +241,8 @@ class Walker:
 
         def rec(o):
             if isinstance(o, dict):
+                if o.get("kind") in ("TypeAliasDecl", "TypedefDecl") and "function<" in qt(o) and "std::" not in o.get("name", ""):
+                    self.fn_aliases.add(o.get("name", ""))
                 if o.get("kind") in ("CXXRecordDecl", "ClassTemplateSpecializationDecl") and o.get("id") and o.get("name"):
                     self.record_names.setdefault(o["id"], o["name"])
                 for c in o.get("inner", []):
@@ -311,6 +315,11 @@ class Walker:
         name = f.get("name", "?")
         file = os.path.basename(self.loc_file(f))
         ff = FnFacts(cls, name, file, f.get("kind") in ("CXXConstructorDecl", "CXXDestructorDecl"))
+        # a function that hands out a type-erased callable (std::function / cocls::function) may allocate for large closures
+        fty = qt(f)
+        ret = fty.split("(")[0]
+        if "function<" in ret or any(a and re.search(r"\b" + re.escape(a) + r"\b", ret) for a in self.fn_aliases):
+            ff.allocs.append("returns:" + ("std::function" if "std::function" in ret else "cocls::function"))
         # constructor member initialisers count as ctor accesses; skip
         if body is None:
             return
@@ -452,7 +461,8 @@ class Walker:
         for key, lab in (("std::vector", "std::vector"), ("std::deque", "std::deque"), ("std::function", "std::function"),
                          ("std::string", "std::string"), ("shared_ptr", "std::shared_ptr"), ("std::map", "std::map"),
                          ("std::set", "std::set"), ("std::queue", "std::queue"), ("std::list", "std::list"),
-                         ("basic_string", "std::string"), ("unique_ptr", None)):
+                         ("basic_string", "std::string"), ("cocls::function<", "cocls::function"),
+                         ("unique_ptr", None)):
             if key in t and lab:
                 ff.allocs.append("%s:%s" % (where, lab))
                 break
